@@ -14,7 +14,7 @@ Patterns
 """
 from .facts import Operand
 
-TRANSPARENT = ("::unwrap", "::expect", "::clone", "::copied", "::cloned", "::deref", "::as_ref", "::borrow", "::into", "::from",
+TRANSPARENT = ("::unwrap", "::expect", "::unwrap_or_else", "::unwrap_or", "::clone", "::copied", "::cloned", "::deref", "::as_ref", "::borrow", "::into", "::from",
                "::unwrap_or_default", "::to_owned")
 CALL_OPS = {
     "core::cmp::PartialOrd::le": "Le", "core::cmp::PartialOrd::lt": "Lt", "core::cmp::PartialOrd::ge": "Ge", "core::cmp::PartialOrd::gt": "Gt",
@@ -44,6 +44,11 @@ def expr_of_instr(fd, ins, depth=0, seen=None):
             return expr(fd, Operand({"k": "copy", "pl": {"l": p.local, "p": p.proj}}), depth + 1, seen)
         if rk == "binop":
             return ("bin", norm_op(ins.rv["op"]), expr(fd, ins.ops[0], depth + 1, seen), expr(fd, ins.ops[1], depth + 1, seen))
+        if rk == "agg":
+            if ins.rv.get("adt") == "core::option::Option" or ins.rv.get("adt") == "core::result::Result":
+                return expr(fd, ins.ops[0], depth + 1, seen) if ins.ops else ("const", ins.rv.get("v"))
+            nm = ins.rv.get("adt") or ins.rv.get("ak") or "agg"
+            return ("call", "agg:%s" % nm, [expr(fd, o_, depth + 1, seen) for o_ in ins.ops[:6]])
         if rk == "unop" and ins.ops:
             return ("not", expr(fd, ins.ops[0], depth + 1, seen)) if ins.rv.get("op") == "Not" else expr(fd, ins.ops[0], depth + 1, seen)
         return ("?",)
@@ -110,6 +115,26 @@ def params_of(e, acc=None):
     elif e[0] == "phi":
         for a in e[1]:
             params_of(a, acc)
+    return acc
+
+
+def fields_of(e, acc=None):
+    acc = set() if acc is None else acc
+    if e[0] == "field":
+        acc.add(e[2])
+    elif e[0] == "bin":
+        fields_of(e[2], acc)
+        fields_of(e[3], acc)
+    elif e[0] == "not":
+        fields_of(e[1], acc)
+    elif e[0] == "call":
+        if e[1].startswith("field:"):
+            acc.add(e[1].split(".")[-1])
+        for a in e[2]:
+            fields_of(a, acc)
+    elif e[0] == "phi":
+        for a in e[1]:
+            fields_of(a, acc)
     return acc
 
 
